@@ -2814,7 +2814,8 @@ def allclose_units(actual, desired, rtol=1e-7, atol=0, **kwargs):
     # to avoid spurious errors
     act = act.value
     des = des.value
-    rt = rt.value
+    # a tolerance such as 5 percent is the number 0.05
+    rt = rt.in_units("dimensionless").value
     at = at.value
 
     return np.allclose(act, des, rt, at, **kwargs)
